@@ -21,6 +21,16 @@ def gen(rng, tier):
         b = {k: rng.choice([1, "x", [1, 3], {"q": 2}, None, False]) for k in rng.sample(keys, rng.randint(2, 8))}
         cases.append({"f": a, "t": b, "argv": rng.choice(OPTS)})
         cases.append({"f": [a, b], "t": [b, a, a], "argv": rng.choice(OPTS)})
+    # large mappings (more than 8x8 entries) on both sides
+    for _ in range(max(4, n // 10)):
+        ks = ["k%02d" % i for i in range(14)]
+        a = {k: rng.choice([1, 2, "x", "yy", [1], None]) for k in rng.sample(ks, rng.randint(9, 13))}
+        b = {k: rng.choice([1, 3, "x", "yz", [2], None]) for k in rng.sample(ks, rng.randint(9, 13))}
+        cases.append({"f": a, "t": b, "argv": rng.choice([[], ["-j"], ["--dict-strategy", "match"], ["-k"]])})
+    # equal-valued leaves of different types against the same targets (hidden memoisation across calls shows here)
+    for v in (1, True, 1.0, 0, False, 0.0, "1", "True"):
+        for w in (True, 12, "1", 1, None):
+            cases.append({"f": [v, 7], "t": [w, 12], "argv": []})
     for _ in range(n):
         a = gen_doc(rng, maxd=4)
         b = mutate(rng, a) if rng.random() < 0.8 else gen_doc(rng)
@@ -28,15 +38,19 @@ def gen(rng, tier):
     return cases
 
 
-def _snapshot(node, depth=0):
-    """Deep structural snapshot of a tree: class, payload, public flags, parent identity, child order."""
+def _snapshot(node, depth=0, ann=False):
+    """Deep structural snapshot of a tree: class, payload, public flags, parent identity, child order
+    (ann: also the edit annotations of an edited tree)."""
     from graphtage import LeafNode
     d = {"cls": type(node).__name__, "parent": id(node.parent) if node.parent is not None else None,
          "attrs": sorted((k, repr(v)[:80]) for k, v in node.__dict__.items()
-                         if isinstance(v, (bool, int, str, float, type(None))) and not k.startswith("_"))}   # "_x" = caches (_total_size)
+                         if isinstance(v, (bool, int, str, float, type(None))) and not k.startswith("_") and k != "removed")}   # "_x" = caches (_total_size)
     if isinstance(node, LeafNode):
         d["obj"] = repr(node.object)
-    d["children"] = [(id(c), _snapshot(c, depth + 1)) for c in node.children()]
+    if ann:
+        d["ann"] = [bool(getattr(node, "removed", False)), len(getattr(node, "inserted", []) or []), id(getattr(node, "matched_to", None)),
+                    [id(e) for e in getattr(node, "edit_list", [])], id(getattr(node, "edit", None))]
+    d["children"] = [(id(c), _snapshot(c, depth + 1, ann)) for c in node.children()]
     return d
 
 
@@ -54,12 +68,19 @@ def impl(case):
     sa, sb = _snapshot(A), _snapshot(B)
     mutated = None
     try:
-        A.diff(B)
+        d = A.diff(B)
         list(A.get_all_edits(B))
         if _snapshot(A) != sa:
             mutated = "from"
         elif _snapshot(B) != sb:
             mutated = "to"
+        else:
+            # a diff result is itself a tree: comparing IT against a third document must not alter it either
+            C3 = gj.build_tree([case["t"], case["f"]], o)
+            sd = _snapshot(d, ann=True)
+            d.diff(C3)
+            if _snapshot(d, ann=True) != sd:
+                mutated = "diff-result"
     except Exception as e:
         mutated = "EXC:" + type(e).__name__
     return {"rc": r1["rc"], "exc": r1["exc"], "sha": hashlib.sha256(r1["out"].encode("utf-8", "surrogatepass")).hexdigest(),
